@@ -43,11 +43,12 @@ func init() { fw.Register(&c14{}) }
 
 func (p *c14) ID() string { return "C14" }
 func (p *c14) Rule() string {
-	return "a generated case bundles 8 items under one random environment (zone, date format, country; both redaction policies; with and without a resolver): 4 query texts derived from antlr/ContactQL.g4 (implicit conditions, every comparator and alias, AND/OR/implicit AND, parentheses, quoted/naively quoted/bare literals, any case and whitespace, plus token soup and one-character mutations), 2 programmatic trees (NewCondition/NewBoolCombination, 1-4 children, nesting <= 3, conditions valid by construction, values = hostile valid UTF-8) 2 injection templates (1-5 conditions, the escaped value at a random position), 2 contact-query templates (1-5 conditions, 1-3 expression sites) evaluated by excellent.Evaluator.Template with flows.ContactQueryEscaping over a context of text, number, boolean, datetime, nil, array and object values (with and without __default__) whose rendered text is hostile, and 1 scenario run through the real engine (flow with set_run_result + start_session + send_broadcast whose contact_query are such templates over the run context; hostile message text, contact name and field value; evaluated query read off the session_triggered / broadcast_created events). Hostile values = valid UTF-8 biased to quotes, backslashes (trailing), operators, parentheses, keywords, plus (20%) look-alike / normalisable characters (typographic and fullwidth quotes, guillemets, primes, Unicode spaces, invisible characters, fullwidth and homoglyph operators and keywords, NFKC- and case-mapping material) spelled over injection skeletons, and raw control characters mixed with quotes and backslashes. Non-trivial = at least one item whose (parsed) query has >= 2 conditions or a value containing a syntax metacharacter/keyword; distinct = distinct bundle content."
+	return "a generated case bundles 14 items under one random environment (zone, date format, country; both redaction policies; with and without a resolver): 4 query texts derived from antlr/ContactQL.g4 (implicit conditions, every comparator and alias, AND/OR/implicit AND, parentheses, quoted/naively quoted/bare literals, any case and whitespace, plus token soup and one-character mutations), 2 programmatic trees (NewCondition/NewBoolCombination, 1-4 children, nesting <= 3, conditions valid by construction, values = hostile valid UTF-8) 2 injection templates (1-5 conditions, the escaped value at a random position), 2 contact-query templates (1-5 conditions, 1-3 expression sites) evaluated by excellent.Evaluator.Template with flows.ContactQueryEscaping over a context of text, number, boolean, datetime, nil, array and object values (with and without __default__) whose rendered text is hostile, and 1 scenario run through the real engine (flow with set_run_result + start_session + send_broadcast whose contact_query are such templates over the run context; hostile message text, contact name and field value; evaluated query read off the session_triggered / broadcast_created events), and 3 items (1 text of 1-3 conditions, 1 programmatic tree, 1 injection template whose site is a condition on that property) in which the value of a condition echoes the condition's own property: the property key as written in a query or a URN (key, urns.key / fields.key, upper case) 1-3 times, each followed by a separator (mostly ':'), then a plausible path / text or a hostile value; the property is a URN scheme (58%, every scheme), the urn or name attribute or a text field. Hostile values = valid UTF-8 biased to quotes, backslashes (trailing), operators, parentheses, keywords, plus (20%) look-alike / normalisable characters (typographic and fullwidth quotes, guillemets, primes, Unicode spaces, invisible characters, fullwidth and homoglyph operators and keywords, NFKC- and case-mapping material) spelled over injection skeletons, and raw control characters mixed with quotes and backslashes. Non-trivial = at least one item whose (parsed) query has >= 2 conditions or a value containing a syntax metacharacter/keyword; distinct = distinct bundle content."
 }
 func (p *c14) Directed() []string {
 	return []string{"known-trailing-backslash", "grammar-corpus", "repo-test-queries", "pool-values", "unicode-keys",
-		"confusable-characters", "control-characters-with-escapes", "engine-template-evaluator", "engine-actions"}
+		"confusable-characters", "control-characters-with-escapes", "engine-template-evaluator", "engine-actions",
+		"value-echoes-own-property"}
 }
 func (p *c14) NumGenerated(tier string) int {
 	if tier == "thorough" {
@@ -80,6 +81,8 @@ func (p *c14) Floors(tier string) []string {
 		"clause4.action.held.text-value", "clause4.action.held.non-text-value", "clause4.action.held.meta_value.non-text-value",
 		"clause4.action.event.session_triggered", "clause4.action.event.broadcast_created",
 		"clause4.action.held.kind.object-default", "clause4.action.held.kind.nil", "clause4.action.held.kind.array",
+		"clause1.held.key_echo_value.urn_scheme", "clause2.held.key_echo_value.urn_scheme", "clause3.held.key_echo_value.urn_scheme",
+		"clause1.held.key_echo_value", "clause2.held.key_echo_value", "clause3.held.key_echo_value",
 	}
 }
 
@@ -334,6 +337,11 @@ func diagnose(c cfg, t *node, kind string) []diagnosis {
 			return []diagnosis{{rp.cause, shrunk(repair)}}
 		}
 	}
+	// the value of a condition repeats the condition's own property key, and the round trip works
+	// when it does not
+	if y, changed := unecho(t); changed && roundTrips(c, y) {
+		return []diagnosis{{causeKeyEcho, shrunk(unecho)}}
+	}
 	// smallest failing sub-term: a single condition?
 	for _, l := range t.leaves() {
 		if !roundTrips(c, l) {
@@ -535,6 +543,7 @@ func (k *chk14) noteTree(prefix string, t *node) (multi, meta bool) {
 	if ctl {
 		k.res.Count(prefix+".control_mix_value", 1)
 	}
+	k.noteEcho(prefix, t)
 	return
 }
 
@@ -799,12 +808,14 @@ func (k *chk14) checkInjection(c cfg, t template, v string) {
 	}
 	t0 := fromQL(p0.q.Root())
 	nsites := 0
+	var siteLeaf *node
 	// expected(val): the skeleton with the one literal replaced by val
 	expected := func(val string) *node {
 		nsites = 0
 		return t0.mapLeaves(func(l *node) *node {
 			if l.Val == placeholder {
 				nsites++
+				siteLeaf = l
 				cp := *l
 				cp.Val = val
 				return &cp
@@ -847,6 +858,16 @@ func (k *chk14) checkInjection(c cfg, t template, v string) {
 				return rp.cause, fmt.Sprintf(" [shrunk value: %q]", small)
 			}
 		}
+		echo := func(val string) bool {
+			u := unechoValue(siteLeaf.Key, val)
+			return u != val && !holds(val) && holds(u)
+		}
+		if echo(v) {
+			small := shrinkString(v, echo)
+			wit["shrunk_value"] = small
+			wit["shrunk_query"] = t.with(small)
+			return causeKeyEcho, fmt.Sprintf(" [shrunk value: %q in a condition on %s:%s]", small, siteLeaf.PT, siteLeaf.Key)
+		}
 		return kind + "|unclassified:value-" + firstFeature(v), ""
 	}
 	if !pv.ok() {
@@ -885,6 +906,9 @@ func (k *chk14) checkInjection(c cfg, t template, v string) {
 	if t.nparts >= 2 {
 		k.nt = true
 	}
+	if site := cond(siteLeaf.PT, siteLeaf.Key, siteLeaf.Cmp, v); echoes(site) {
+		k.noteEcho("clause3.held", site)
+	}
 	k.res.Seen("value_classes", valueClass(v))
 }
 
@@ -921,6 +945,7 @@ func (p *c14) Run(c fw.Case) fw.Result {
 			k.checkInjection(cf, genTemplate(ri, cf, k.spec.DateFmt), hostileValue(ri))
 		}
 		k.generatedEngine(r.Fork("engine"), c.Gen, c.Seed*1000003+int64(c.Gen))
+		k.generatedKeyEcho(r.Fork("key-echo"), c.Gen) // drawn last: the items above are what they were before this family existed
 		dates.SetNowFunc(dates.NewFixedNow(fixedNow))
 	}
 	res.Fingerprint = strings.Join(k.fps, "\x01")
@@ -1075,6 +1100,8 @@ func (k *chk14) directed(name string) {
 				}
 			}
 		}
+	case "value-echoes-own-property":
+		k.directedKeyEcho()
 	case "engine-template-evaluator":
 		k.directedEvaluatorTemplate()
 	case "engine-actions":
